@@ -11,6 +11,11 @@ use crate::io::reader::num::{read_u8, read_u32_le};
 pub fn decode(mut src: &[u8]) -> io::Result<Vec<u8>> {
     let (order, _, uncompressed_size) = read_header(&mut src)?;
 
+    // There are no symbols and, therefore, no (valid) frequency table to read.
+    if uncompressed_size == 0 {
+        return Ok(Vec::new());
+    }
+
     let mut dst = vec![0; uncompressed_size];
 
     match order {
